@@ -96,6 +96,7 @@ def _do_insert_handlers(case, ctx, site, action):
 
 
 pg.ACTION_HANDLERS["insert_handlers"] = _do_insert_handlers
+pg.ACTION_HANDLERS["front_catchall"] = lambda case, ctx, site, action: None
 
 
 def execute(config, flavour, chooser):
@@ -124,6 +125,13 @@ def execute(config, flavour, chooser):
             ctx.extra["insert_handlers"] = insert
         else:
             insert()
+        if config.actions.get("setUp.pre") and ("front_catchall",) in config.actions["setUp.pre"]:
+            # a catch-all put in FRONT of everything: list order says it wins for every Exception
+            def h_all(c, result, e):
+                handler_calls.append("handler:all")
+                result.addError(c, details={})
+
+            case.exception_handlers.insert(0, (Exception, h_all))
         result, log = c01.make_result(flavour)
         try:
             case.run(result)
@@ -154,6 +162,12 @@ def check_execution(config, flavour, ctx, log, how, result, handler_calls):
     else:
         if outcome == "addSuccess":
             problems.append(("success-unsound", "outcome addSuccess although user code raised %r" % (eff,)))
+    catchall = ("front_catchall",) in config.actions.get("setUp.pre", ())
+    if catchall:
+        if len(eff) == 1 and eff[0] not in (pg.KBI, pg.SYSEXIT):
+            if handler_calls != ["handler:all"]:
+                problems.append(("user-handler", "a catch-all (Exception, handler) was inserted at the front, yet for the sole exception %s the handlers called were %r" % (eff[0], handler_calls)))
+        return problems, outcome
     if len(eff) == 1:
         want = MAPPED[eff[0]]
         if want.startswith("handler:"):
@@ -181,6 +195,9 @@ def shards(tier):
             for em in (False, True):
                 for ff in (False, True):
                     out.append((flavour, nc, em, ff, None))
+        out.append((flavour, 1, False, False, "front_catchall"))
+        out.append((flavour, 1, False, False, "custom_skipexception"))
+        out.append((flavour, 2, False, True, "custom_skipexception"))
         out.append((flavour, 1, False, False, "late_handlers"))
         out.append((flavour, 2, True, False, "late_handlers"))
         out.append((flavour, 1, False, False, "xfail_decorator"))
@@ -195,7 +212,15 @@ def config_of(shard):
         actions = dict(actions)
         actions["setUp.pre"] = [("insert_handlers",)]
         dec = None
-    return pg.Config(actions=actions, kinds=KINDS, expect_mismatch=em, force_failure=ff, decorator=dec)
+    if dec == "front_catchall":
+        actions = dict(actions)
+        actions["setUp.pre"] = [("front_catchall",)]
+        dec = None
+    kinds = KINDS
+    if dec == "custom_skipexception":
+        # a subclass of unittest.SkipTest is an ordinary exception for a case with its own skip class
+        kinds = tuple(k for k in KINDS if k != SKIP_SUB)
+    return pg.Config(actions=actions, kinds=kinds, expect_mismatch=em, force_failure=ff, decorator=dec)
 
 
 def fingerprint(clause, eff):
